@@ -201,6 +201,11 @@ struct ClockedAuthz {
     offset_s: AtomicU64,
     /// session data registered for each identity (written by the harness at registration)
     tags: Mutex<HashMap<[u8; 32], Arc<SessTag>>>,
+    /// real instant read by the harness right before the current history operation started
+    op_started: Mutex<Instant>,
+    /// authorisation questions the server asked for an instant earlier than `op_started`
+    stale_questions: AtomicU64,
+    questions: AtomicU64,
 }
 
 impl ClockedAuthz {
@@ -212,6 +217,12 @@ impl ClockedAuthz {
 impl SnapTunAuthorization for ClockedAuthz {
     type SessionData = SessTag;
     fn is_authorized(&self, now: Instant, identity: &[u8; 32]) -> Option<Arc<SessTag>> {
+        // "authorised at that moment": the monotonic clock read by the harness before it called
+        // into the server can never be later than a clock reading taken during the call
+        self.questions.fetch_add(1, Ordering::Relaxed);
+        if now < *self.op_started.lock().unwrap() {
+            self.stale_questions.fetch_add(1, Ordering::Relaxed);
+        }
         SnapTunAuthorization::is_authorized(&self.registry, now + self.offset(), identity).map(|_| {
             self.tags
                 .lock()
@@ -267,6 +278,9 @@ impl<'a> Run<'a> {
             registry: IdentityRegistry::new(),
             offset_s: AtomicU64::new(0),
             tags: Mutex::new(HashMap::new()),
+            op_started: Mutex::new(Instant::now()),
+            stale_questions: AtomicU64::new(0),
+            questions: AtomicU64::new(0),
         });
         // the rate limiter never reports load: cookie replies are out of scope
         let rl = Arc::new(RateLimiter::new(&k.server_pub, u64::MAX / 4));
@@ -739,7 +753,17 @@ fn check_hist(h: &Hist, obs: &mut Obs) -> CheckResult {
     let mut run = Run::new(obs);
     let mut prev = [Tri::No; NI];
     for (i, op) in h.ops.iter().enumerate() {
+        *run.authz.op_started.lock().unwrap() = Instant::now();
+        let asked = run.authz.questions.load(Ordering::Relaxed);
         run.apply(op).map_err(|f| Fail::new(f.sig, format!("op #{i} {op:?}: {}", f.msg)))?;
+        if run.authz.questions.load(Ordering::Relaxed) > asked {
+            run.obs.label("server-asked-authorisation");
+        }
+        ensure!(
+            run.authz.stale_questions.load(Ordering::Relaxed) == 0,
+            "authorisation-decided-for-an-earlier-instant",
+            "op #{i} {op:?}: the server asked whether an identity is authorised at an instant that lies before the start of this operation (traffic must be authorised at the moment it is carried)"
+        );
         if run.t0.elapsed() > MAX_REAL_CASE {
             run.obs.label("excluded-slow-case");
             return Ok(());
@@ -1115,6 +1139,187 @@ fn run_registry_random(ctx: &Ctx) {
     );
 }
 
+// ---------------------------------------------------------------------------------------------
+// registry under concurrent writers (generated thread programs; the OS owns the schedule)
+// ---------------------------------------------------------------------------------------------
+/// Writer thread `t` owns token key `w<t>` and the two identities `[t+1, 1|2, 0..]`; nobody else
+/// touches them. Purger threads call `remove_expired` at an instant at which only the filler
+/// registrations (lifetime 0) are expired, so a purge never concerns a writer's identity.
+/// Whatever the interleaving, a linearizable registry therefore answers, for writer `t`:
+/// right after its own `register(key, id)` returned, `id` is authorised and its other identity
+/// is not; after all threads joined, exactly the identity of its last registration is.
+#[derive(Debug, Clone, PartialEq, Eq, Hash, Serialize, Deserialize)]
+struct CCase {
+    /// live filler registrations (make the copy-on-write clone long)
+    ballast: u16,
+    /// expired filler registrations re-added by every purger round (make the purge a real write)
+    expired: u8,
+    purgers: u8,
+    /// per writer: sequence of (which of its two identities, spin iterations before the call)
+    writers: Vec<Vec<(bool, u8)>>,
+    /// how often the whole program is run (each repetition is a new schedule)
+    reps: u8,
+}
+
+fn conc_ident(t: usize, second: bool) -> [u8; 32] {
+    let mut id = [0u8; 32];
+    id[0] = t as u8 + 1;
+    id[1] = 1 + second as u8;
+    id
+}
+fn filler_ident(class: u8, i: usize) -> [u8; 32] {
+    let mut id = [0u8; 32];
+    id[0] = class;
+    id[1] = 0xff;
+    id[2..10].copy_from_slice(&(i as u64).to_le_bytes());
+    id
+}
+
+fn check_registry_concurrent(c: &CCase, obs: &mut Obs) -> CheckResult {
+    use std::sync::atomic::AtomicBool;
+    let life = Duration::from_secs(100_000);
+    let mut overlapped = false;
+    for rep in 0..c.reps.max(1) {
+        let base = Instant::now();
+        let t_purge = base + Duration::from_secs(10);
+        let t_probe = base + Duration::from_secs(20);
+        let reg = IdentityRegistry::new();
+        for i in 0..c.ballast as usize {
+            reg.register(base, format!("ballast-{i}"), filler_ident(0xf0, i), life);
+        }
+        let writers_done = AtomicBool::new(false);
+        let purges_during = AtomicU64::new(0);
+        let go = std::sync::Barrier::new(c.writers.len() + c.purgers as usize);
+        let verdict: Mutex<Option<Fail>> = Mutex::new(None);
+        std::thread::scope(|s| {
+            let mut hs = vec![];
+            for (t, prog) in c.writers.iter().enumerate() {
+                let (reg, go, verdict) = (&reg, &go, &verdict);
+                hs.push(s.spawn(move || {
+                    go.wait();
+                    for (k, &(second, spin)) in prog.iter().enumerate() {
+                        for _ in 0..spin as u32 * 8 {
+                            std::hint::spin_loop();
+                        }
+                        reg.register(base, format!("w{t}"), conc_ident(t, second), life);
+                        let own = reg.has_authorization(t_probe, &conc_ident(t, second));
+                        let other = reg.has_authorization(t_probe, &conc_ident(t, !second));
+                        if !own || other {
+                            let f = if !own {
+                                Fail::new(
+                                    "registry-concurrent-registration-lost",
+                                    format!("rep {rep}: writer {t} op #{k}: register(w{t}, identity {}) returned, the identity is not authorised (unexpired, nobody else uses this key or identity)", 1 + second as u8),
+                                )
+                            } else {
+                                Fail::new(
+                                    "registry-concurrent-authorises-superseded-identity",
+                                    format!("rep {rep}: writer {t} op #{k}: register(w{t}, identity {}) returned, the identity previously registered under this key is still/again authorised", 1 + second as u8),
+                                )
+                            };
+                            verdict.lock().unwrap().get_or_insert(f);
+                            return;
+                        }
+                    }
+                }));
+            }
+            for p in 0..c.purgers as usize {
+                let (reg, go, writers_done, purges_during) = (&reg, &go, &writers_done, &purges_during);
+                s.spawn(move || {
+                    go.wait();
+                    let mut round = 0usize;
+                    loop {
+                        for i in 0..c.expired as usize {
+                            reg.register(base, format!("exp-{p}-{i}"), filler_ident(0xe0 + p as u8, i), Duration::ZERO);
+                        }
+                        reg.remove_expired(t_purge);
+                        round += 1;
+                        if writers_done.load(Ordering::Acquire) {
+                            break;
+                        }
+                        purges_during.fetch_add(1, Ordering::Relaxed);
+                        if round > 1_000_000 {
+                            break;
+                        }
+                    }
+                });
+            }
+            for h in hs {
+                let _ = h.join();
+            }
+            writers_done.store(true, Ordering::Release);
+        });
+        obs.evals(c.writers.iter().map(|w| 2 * w.len() as u64).sum::<u64>());
+        if let Some(f) = verdict.into_inner().unwrap() {
+            return Err(f);
+        }
+        overlapped |= purges_during.load(Ordering::Relaxed) > 0;
+        // quiescent state: exactly the last registration of every writer is authorised
+        for (t, prog) in c.writers.iter().enumerate() {
+            let Some(&(last, _)) = prog.last() else { continue };
+            obs.evals(2);
+            ensure!(
+                reg.has_authorization(t_probe, &conc_ident(t, last)),
+                "registry-concurrent-registration-lost",
+                "rep {rep}: after all threads joined: the last registration of writer {t} (identity {}) is not authorised",
+                1 + last as u8
+            );
+            ensure!(
+                !reg.has_authorization(t_probe, &conc_ident(t, !last)),
+                "registry-concurrent-authorises-superseded-identity",
+                "rep {rep}: after all threads joined: writer {t}'s identity {} is authorised though its key was last registered for the other identity (or it never registered)",
+                1 + !last as u8
+            );
+        }
+        for i in (0..c.ballast as usize).step_by(97) {
+            ensure!(
+                reg.has_authorization(t_probe, &filler_ident(0xf0, i)),
+                "registry-concurrent-registration-lost",
+                "rep {rep}: unexpired ballast registration {i} disappeared"
+            );
+        }
+        for p in 0..c.purgers as usize {
+            for i in 0..c.expired as usize {
+                ensure!(
+                    !reg.has_authorization(t_probe, &filler_ident(0xe0 + p as u8, i)),
+                    "registry-concurrent-authorises-lapsed-identity",
+                    "rep {rep}: zero-lifetime registration exp-{p}-{i} is authorised"
+                );
+            }
+        }
+    }
+    let n_ops: usize = c.writers.iter().map(|w| w.len()).sum();
+    if c.purgers > 0 && n_ops >= 2 {
+        obs.label("concurrent-purger-and-writers");
+        if overlapped {
+            obs.label("purge-overlapped-writers");
+            obs.nontrivial(c);
+        }
+    }
+    if c.writers.len() >= 2 {
+        obs.label("concurrent-two-or-more-writers");
+    }
+    Ok(())
+}
+
+fn run_registry_concurrent(ctx: &Ctx) {
+    let prog = || prop::collection::vec((any::<bool>(), prop_oneof![3 => Just(0u8), 2 => 0u8..=255]), 1..16);
+    ctx.run_prop(
+        "registry-concurrent",
+        ctx.tier.pick(480, 16_000),
+        move || {
+            (
+                prop_oneof![1 => 0u16..64, 3 => 200u16..1500],
+                0u8..4,
+                prop_oneof![1 => Just(0u8), 6 => 1u8..=3],
+                prop::collection::vec(prog(), 1..=3),
+                1u8..=2,
+            )
+                .prop_map(|(ballast, expired, purgers, writers, reps)| CCase { ballast, expired, purgers, writers, reps })
+        },
+        check_registry_concurrent,
+    );
+}
+
 fn post(ctx: &Ctx) {
     if ctx.only.is_some() {
         return;
@@ -1132,6 +1337,7 @@ fn post(ctx: &Ctx) {
     ctx.require_label("out-accepted-packet-lost", 500);
     ctx.require_label("handshake-second-identity-same-address", 5_000);
     ctx.require_label("probe-exactly-at-expiry", 100_000);
+    ctx.require_label("purge-overlapped-writers", 300);
     ctx.extra(
         "excluded_cases",
         serde_json::json!({
@@ -1144,7 +1350,16 @@ fn post(ctx: &Ctx) {
 fn main() {
     let hist_replay: fn(&Ctx, &serde_json::Value) -> Option<CheckResult> = |c, v| c.replay_case::<Hist>("hist", v, check_hist);
     let reg_replay: fn(&Ctx, &serde_json::Value) -> Option<CheckResult> = |c, v| c.replay_case::<RCase>("registry", v, check_registry);
+    let conc_replay: fn(&Ctx, &serde_json::Value) -> Option<CheckResult> = |c, v| {
+        // the schedule is not part of the case: a replay runs the thread programme many times
+        c.replay_case::<CCase>("registry-concurrent", v, |case, obs| {
+            let mut case = case.clone();
+            case.reps = 200;
+            check_registry_concurrent(&case, obs)
+        })
+    };
     let subs = [
+        Sub { name: "registry-concurrent", run: run_registry_concurrent, replay: conc_replay },
         Sub { name: "registry-boundary-exh-s", run: run_registry_s, replay: reg_replay },
         Sub { name: "registry-boundary-exh-ns", run: run_registry_ns, replay: reg_replay },
         Sub { name: "registry-boundary-random", run: run_registry_random, replay: reg_replay },
@@ -1157,9 +1372,10 @@ fn main() {
     ];
     vcore::main(
         "C09",
-        "case = history of operations over 2 token keys x 3 x25519 client identities x 2 client socket addresses: Register(key,identity,lifetime), Advance(dt) of a virtual clock, Purge (remove_expired), Handshake(identity,address) by a real ana_gotatun Tunn client (one per identity and address) against the real SnapTunServer whose authorisation layer is the real IdentityRegistry read at now+virtual offset, DataIn (client encrypts a fresh unique payload; implicit handshake if it has no session), DataOut (server handle_outgoing_packet_with_session towards an address), Tick (update_timers), Redeliver (duplicate/late ciphertext), DataIn through the other address. All server output is delivered to every client living at the target address and client answers are pumped back. Exhaustive: all histories of length <=3 (both tiers) and =4 (thorough; arithmetic slice in quick) over a 29-symbol alphabet (2 keys x 3 ids x lifetimes {6,14}, advance 8, purge, 6 handshakes, 6 data-in, 2 data-out, tick), all histories of length 5 over an 18-symbol reduced alphabet (thorough; slice in quick); random histories up to length 40, 40% of them built around register/handshake/traffic/loss/traffic/re-register/traffic with random operations spliced in. Registry alone with synthetic instants: all histories of <=3 (quick) / <=4 (thorough) operations over {register(dt,key,id,lifetime in 0..2), purge(dt)} with time units of 1 s and 1 ns, probed at now..now+4 for every identity, plus random histories up to 30 operations. Oracle = plain model (identity -> key, expiry, registration serial; a registration under a key held by another identity removes that identity; the latest registration of an identity is its only one): Forwarded => the client that encrypted exactly these bytes has an identity registered and unexpired now, the session data returned is the one registered for that identity, and that client completed a handshake over that address; handle_outgoing Some => same for the identity of the returned session; a client decrypting a non-empty payload => its identity is authorised now, the payload was handed to the server for that address and was not reported dropped; has_authorization == model for every identity after every operation (both directions, strict expiry), never more authorised identities than keys. Non-trivial = history in which an identity loses its authorisation (lapse or supersession) after completing a handshake and a later data operation concerns that identity's address (composed part); registry history with a probe exactly at an expiry instant (registry part).",
+        "case = history of operations over 2 token keys x 3 x25519 client identities x 2 client socket addresses: Register(key,identity,lifetime), Advance(dt) of a virtual clock, Purge (remove_expired), Handshake(identity,address) by a real ana_gotatun Tunn client (one per identity and address) against the real SnapTunServer whose authorisation layer is the real IdentityRegistry read at now+virtual offset, DataIn (client encrypts a fresh unique payload; implicit handshake if it has no session), DataOut (server handle_outgoing_packet_with_session towards an address), Tick (update_timers), Redeliver (duplicate/late ciphertext), DataIn through the other address. All server output is delivered to every client living at the target address and client answers are pumped back. Exhaustive: all histories of length <=3 (both tiers) and =4 (thorough; arithmetic slice in quick) over a 29-symbol alphabet (2 keys x 3 ids x lifetimes {6,14}, advance 8, purge, 6 handshakes, 6 data-in, 2 data-out, tick), all histories of length 5 over an 18-symbol reduced alphabet (thorough; slice in quick); random histories up to length 40, 40% of them built around register/handshake/traffic/loss/traffic/re-register/traffic with random operations spliced in. Registry alone with synthetic instants: all histories of <=3 (quick) / <=4 (thorough) operations over {register(dt,key,id,lifetime in 0..2), purge(dt)} with time units of 1 s and 1 ns, probed at now..now+4 for every identity, plus random histories up to 30 operations. Oracle = plain model (identity -> key, expiry, registration serial; a registration under a key held by another identity removes that identity; the latest registration of an identity is its only one): Forwarded => the client that encrypted exactly these bytes has an identity registered and unexpired now, the session data returned is the one registered for that identity, and that client completed a handshake over that address; handle_outgoing Some => same for the identity of the returned session; a client decrypting a non-empty payload => its identity is authorised now, the payload was handed to the server for that address and was not reported dropped; has_authorization == model for every identity after every operation (both directions, strict expiry), never more authorised identities than keys; every authorisation question the server asks carries an instant not earlier than the start of the operation. Registry under concurrent writers (registry-concurrent): 1-3 writer threads, each owning one token key and two identities and running a generated programme of registrations with generated spin delays, 0-3 purger threads (remove_expired at an instant at which only zero-lifetime filler registrations are expired), 0-1500 live ballast registrations; oracle: after its own register() returned a writer finds that identity authorised and its other identity not, and after all threads joined exactly the last registration of every writer is authorised, every ballast entry still is and no zero-lifetime entry is. Non-trivial = history in which an identity loses its authorisation (lapse or supersession) after completing a handshake and a later data operation concerns that identity's address (composed part); registry history with a probe exactly at an expiry instant (registry part); thread programme during which at least one purge ran while writers were still registering (concurrent part).",
         &[
-            "single-threaded: concurrency of registry updates versus the packet path is not explored (the registry is copy-on-write behind ArcSwap, each packet sees one consistent snapshot)",
+            "the tunnel server is driven from one thread; concurrency is explored for the registry's writers only (sub-check registry-concurrent: generated thread programmes, schedule left to the OS on 16 cores, so a lost update is found with high probability per run, not with certainty; a saved case is replayed 200 times)",
+            "the instant the server passes to its authorisation layer must not lie before the harness's own reading of the monotonic clock taken right before the operation (a decision for an earlier instant is a decision for an earlier moment)",
             "the server and ana_gotatun read the real clock: in the composed test all lifetimes/advances are whole seconds, comparisons closer than 2 s to an expiry are skipped (counted as guard-band-skip) and a case whose real duration exceeds 1 s is excluded (counted); the exact strict boundary is checked on IdentityRegistry alone with synthetic instants",
             "WireGuard timers (rekey after 120 s, session rejection after 180 s, tunnel expiry after 540 s, keepalives) run on the real clock and therefore never fire: update_timers is exercised but emits nothing; handshake rate limiting / cookie replies are disabled (limit set to u64::MAX/4)",
             "keepalives (empty payloads) and handshake messages are not payloads in the sense of the property; only non-empty plaintext counts as traffic",
